@@ -478,3 +478,45 @@ def moves_repeated(f):
         if f.reach_avoiding(tuple(pos), tuple(pos), avoid):
             out.append((st, p))
     return out
+
+
+# ------------------------------------------------------- uninitialised locals
+SCALARS = ("bool", "char", "signed char", "unsigned char", "short", "unsigned short", "int", "unsigned int", "long",
+           "unsigned long", "long long", "unsigned long long", "float", "double", "long double")
+
+
+def uninitialised_uses(f):
+    """locals of scalar / pointer type declared without an initialiser and used where no assignment dominates the
+    use: list of (use stmt, name, decl stmt).  `T x;` default-initialises: for a scalar T the value is indeterminate
+    (`T x{};` / `T()` value-initialise)."""
+    out = []
+    for st in f.stmts.values():
+        if st["k"] != "DeclStmt":
+            continue
+        for d in st["decls"]:
+            if d.get("k") != "local" or d.get("init") or d.get("ref"):
+                continue
+            t = d.get("type", "").replace("const ", "").strip()
+            if not (t in SCALARS or t.endswith("*")):
+                continue
+            assigns, uses = [], []
+            for u in f.stmts.values():
+                if u["k"] == "DeclRefExpr" and u["d"].get("id") == d["id"]:
+                    par = f.par(u)
+                    while par is not None and par["k"] == "ParenExpr":
+                        par = f.par(par)
+                    if par is not None and par["k"] == "BinaryOperator" and par["op"] == "=" and \
+                            unwrap(f, f.children(par)[0]) is not None and unwrap(f, f.children(par)[0])["id"] == u["id"]:
+                        assigns.append(f.pos_of(par))
+                    elif par is not None and par["k"] == "UnaryOperator" and par["op"] == "&":
+                        assigns.append(f.pos_of(par))      # address passed on: an out-parameter, assume it is filled in
+                    else:
+                        uses.append(u)
+            for u in uses:
+                up = f.pos_of(u)
+                if up is None:
+                    continue
+                dp = f.pos_of(st)
+                if dp is not None and f.reach_avoiding(tuple(dp), tuple(up), [tuple(a) for a in assigns if a is not None]):
+                    out.append((u, d["name"], st))
+    return out
